@@ -142,7 +142,8 @@ class Gen:
                 ct = self.tok()
                 sink.append(ct)
                 code = [f'{ct} = 1', f'def  spaced{r.randint(1, 9)}(a,  b=1):', '    return   a', 'class   Aligned:', f'    x  =  "{ct[:3]}"'][:r.randint(2, 5)]
-                out.append(pad + r.choice(['.. code:: python', '.. python::', '.. code::']))
+                lang = r.choice(['.. code:: python', '.. python::', '.. code::', '.. code:: bash', '.. code-block:: json', '.. code:: console', '.. code-block:: text', '.. code-block:: python3'])
+                out.append(pad + lang)
                 out.append('')
                 out += [pad + '   ' + ln for ln in code]
                 self.exp.verbatim.append(('code', '\n'.join(code)))
